@@ -6,6 +6,7 @@ import itertools
 import random
 
 from harness import framegen
+from ref import wire4, wire5
 from harness import gen as G
 from harness.world import World
 
@@ -46,6 +47,18 @@ def _stream(rng, gen: int):
             frames.append(framegen.foreign_address_frame(rng, gen)[0])  # traffic of another client on the same link
         else:
             frames.append(framegen.frame(rng, gen)[0])
+    if rng.random() < 0.08:
+        # two frames with the very same data section and different message types (the data section alone does not say what
+        # a frame is: two empty requests, or the same bytes under two unknown types), not necessarily adjacent
+        w = wire4 if gen == 4 else wire5
+        known = {0x1F, 0x2A, 0x2B, 0x2C, 0x2D, 0x36, 0x37} if gen == 4 else {0x1F, 0xC0}
+        pay = bytes(rng.randrange(256) for _ in range(rng.choice([0, 0, 1, 3, 8])))
+        if gen == 4 and not pay and rng.random() < 0.5:
+            ts = rng.sample([0x2B, 0x2D, 0x37], 2)  # empty data section = the status requests
+        else:
+            ts = rng.sample([x for x in range(256) if x not in known], 2)
+        for t in ts:
+            frames.insert(rng.randrange(len(frames) + 1), w.frame(w.ADDR_CLIENT, w.ADDR_CONSOLE, rng.randrange(256), t, pay))
     if rng.random() < 0.08:
         # the length field is 16 bits wide: a frame much longer than everyday traffic, somewhere in the stream
         size = rng.choice(framegen.HUGE_SIZES) if rng.random() < 0.25 else None
@@ -171,6 +184,11 @@ def execute(sc: dict) -> dict:
             V.append(viol("C13.baseline", {"frames": len(frames), "delivered_whole": len(ref)}))
         for fr, r in zip(frames, ref):
             d = readcmp.compare(gen, wire.read(fr), r)
+            if fr["type"] not in ((0x1F, 0x2A, 0x2B, 0x2C, 0x2D, 0x36, 0x37) if gen == 4 else (0x1F, 0xC0)) and any(x["cls"] != "sentinel" for x in d):
+                # a frame of an unknown type is handed on as it is: its type and its bytes (field interpretation of the known
+                # kinds is C05's subject, here only kind and record count are compared)
+                V.append(viol("C13.baseline", {"diff": d[:3], "unknown_type": fr["type"]}))
+                break
             if any(x["cls"] in ("kind", "count") for x in d):
                 V.append(viol("C13.baseline", {"diff": d[:3]}))
                 break
